@@ -468,7 +468,9 @@ class Registry:
     def find_name(self, conversion):
         """Return the best name for *conversion*, which must have been returned
         from *get* on this object."""
-        for dct in self._other, self._stock:
+        # the stock names first: they do not depend on which dotted names
+        # happen to have been looked up (and remembered) so far
+        for dct in self._stock, self._other:
             for k, v in dct.items():
                 if v is conversion:
                     return k
